@@ -236,7 +236,17 @@ def run_tlc(
         try:
             p = subprocess.run(cmd, cwd=tmp, env=e, capture_output=True, text=True, timeout=timeout)
         except subprocess.TimeoutExpired as ex:
-            raise TlcError(f"TLC timeout after {timeout}s on {module}") from ex
+            # TLC 1.8 with several workers was seen to hang once in StateQueue.suspendAll on a model that normally takes
+            # seconds: one more try, single worker (deterministic breadth-first search), before giving up
+            if str(workers) == "1" or simulate is not None:
+                raise TlcError(f"TLC timeout after {timeout}s on {module}") from ex
+            cmd1 = list(cmd)
+            cmd1[cmd1.index("-workers") + 1] = "1"
+            shutil.rmtree(Path(tmp) / "meta", ignore_errors=True)
+            try:
+                p = subprocess.run(cmd1, cwd=tmp, env=e, capture_output=True, text=True, timeout=timeout)
+            except subprocess.TimeoutExpired as ex2:
+                raise TlcError(f"TLC timeout after {timeout}s on {module} (also with one worker)") from ex2
         wall = time.time() - t0
         out = p.stdout + ("\n" + p.stderr if p.stderr.strip() else "")
         res = TlcResult(rc=p.returncode, out=out, wall_s=wall)
